@@ -697,10 +697,17 @@ spifconf_shell_expand(spif_charptr_t s)
                     case '{':
                         for (pbuff++, k = 0; *pbuff && *pbuff != '}' && k < 127; k++, pbuff++)
                             EnvVar[k] = *pbuff;
+                        if (*pbuff == '}') {
+                            /* The closing brace belongs to the reference, not to the text after it. */
+                            pbuff++;
+                        }
                         break;
                     case '(':
                         for (pbuff++, k = 0; *pbuff && *pbuff != ')' && k < 127; k++, pbuff++)
                             EnvVar[k] = *pbuff;
+                        if (*pbuff == ')') {
+                            pbuff++;
+                        }
                         break;
                     default:
                         for (k = 0; (isalnum(*pbuff) || *pbuff == '_') && k < 127; k++, pbuff++)
